@@ -84,6 +84,23 @@ class Units:
             if isinstance(f, ast.Name):
                 if f.id in ("copy", "round") and e.args:
                     return U(e.args[0])
+                if f.id in ("reduce", "functools.reduce") and len(e.args) >= 2 and isinstance(e.args[0], ast.Lambda) \
+                        and len(e.args[0].args.args) == 2:
+                    # a fold that keeps the unit of its operands (element-wise max / min, sum): the unit of the elements
+                    a_, b_ = [x.arg for x in e.args[0].args.args]
+                    body = e.args[0].body
+                    keeps = (isinstance(body, ast.Call) and isinstance(body.func, ast.Attribute)
+                             and body.func.attr in ("np_compared_with",) and norm(body.func.value) == a_
+                             and body.args and norm(body.args[0]) == b_) or \
+                            (isinstance(body, ast.BinOp) and isinstance(body.op, (ast.Add, ast.Sub))
+                             and {norm(body.left), norm(body.right)} == {a_, b_})
+                    if keeps:
+                        us = [U(x) for x in e.args[1:]]
+                        if all(u_ is not None for u_ in us) and len({u_[1] for u_ in us}) == 1:
+                            return us[0]
+                    return None
+                if f.id in ("list", "tuple", "sorted", "reversed") and len(e.args) == 1:
+                    return U(e.args[0])
                 if f.id in ("ExplainableQuantity", "SourceValue") and e.args:
                     return U(e.args[0])
                 if f.id in ("ExplainableHourlyQuantities", "SourceHourlyValues") and e.args:
@@ -129,6 +146,13 @@ class Units:
             return None
         if isinstance(e, ast.UnaryOp):
             return U(e.operand)
+        if isinstance(e, (ast.ListComp, ast.GeneratorExp)):
+            return U(e.elt)         # a collection of values: the unit they all have
+        if isinstance(e, (ast.List, ast.Tuple)) and e.elts:
+            us = [U(x) for x in e.elts]
+            if all(u_ is not None for u_ in us) and len({u_[1] for u_ in us}) == 1:
+                return us[0]
+            return None
         if isinstance(e, ast.Subscript):
             return U(e.value)       # df["value"], series[...] keep the unit
         if isinstance(e, ast.Attribute):
